@@ -3,7 +3,7 @@ regular region languages in both directions, plus reachability of every constitu
 import json
 import os
 
-from .. import ast_facts, automata as fa, grammar_cmp as gc
+from .. import ast_facts, automata as fa, grammar_cmp as gc, grammar_sim as gs
 from ..report import VERIF
 
 HINT = os.path.join(VERIF, "tdq", "c04_cut_hint.json")
@@ -91,6 +91,9 @@ def run(ck, prog):
                  ("R04.2", "every continuation the parser accepts without an error is documented (trailing separator allowed)"),
                  ("R04.3", "every child node the parser can put inside a node is reachable through a typed accessor of that node, "
                            "as often as it can occur"),
+                 ("R04.5", "token level, thorough tier: every token string within the nesting bound is accepted by both models or by "
+                           "neither, whatever the parse tree (parsed-only decided against the documented language plus a trailing "
+                           "separator before a closing bracket)"),
                  ("R04.4", "documented rules and node kinds correspond (every documented rule name that is a node kind is built; "
                            "every node kind built is documented)")):
         ck.rule(r, t)
@@ -155,6 +158,7 @@ def run(ck, prog):
     # ---- thorough: one level of nesting unrolled -----------------------------------------------
     if ck.tier == "thorough":
         unrolled(ck, cmp, C, res)
+        token_level(ck, cmp)
 
     # ---- R04.3 ---------------------------------------------------------------------------------
     types = ast_facts.ast_types(prog)
@@ -232,3 +236,40 @@ def unrolled(ck, cmp, C, res):
         ck.info("context dependence (not a verdict): inside %s the parse of %s depends on what follows it: `%s`" % (k, x, r))
     ck.ob("R04.1", "in-context:all", True, "%d (kind, child kind) pairs compared, %d with a context dependence" % (n, len(seen)))
     ck.floor("R04.1", "context-dependence comparisons", n, 80)
+
+
+CODE_DEPTH, DOC_DEPTH = 15, 13
+
+
+def token_level(ck, cmp):
+    """R04.5: bounded exploration of the product of the two recursive transition networks on concrete token kinds
+    (tdq.grammar_sim). Unlike R04.1/R04.2 it compares token strings, not parse trees: a phrase accepted through another
+    derivation is accepted. Bound: call depth of the parser model / rule nesting of the documented grammar; string
+    length is unbounded."""
+    ex = gs.Explorer(cmp.model, cmp.rules, 10 ** 6, CODE_DEPTH, DOC_DEPTH)
+    ck.ob("R04.0", "doc-rtn", not ex.doc.problems, "documented grammar read as a transition network without unresolved names",
+          msg="documented grammar could not be read completely (fail closed): %s" % ex.doc.problems[:4])
+    diffs = ex.run(limit_nodes=1500000)
+    ck.count(ex.steps)
+    ck.extra["c04"]["token_level"] = {"code_call_depth": CODE_DEPTH, "doc_rule_depth": DOC_DEPTH, "product_states": ex.nodes,
+                                      "token_steps": ex.steps, "states_cut_at_bound": ex.cut_nodes,
+                                      "raw_differences": len(diffs)}
+    ck.ob("R04.0", "token-level-complete", not ex.truncated, "exploration finished within the state limit (%d states)" % ex.nodes,
+          msg="token-level exploration hit the state limit (fail closed)")
+    ck.floor("R04.5", "product states explored", ex.nodes, 50000)
+    first = {}
+    for x in diffs:
+        k = (x["direction"], (x["code_stack"] or ["?"])[-1], (x["prefix"] or ["<start>"])[-1], x["token"])
+        first.setdefault(k, x)
+    for (direction, kind, prev, tok), x in sorted(first.items()):
+        sent = " ".join(x["prefix"] + ([x["token"]] if x["token"] != "<end>" else []) + x["completion"])
+        if direction == "code-only":
+            msg = ("token level: the parser accepts `%s` without a syntax error (innermost node %s) but no derivation of the "
+                   "documented grammar produces it; first undocumented token: %s after %s" % (sent, kind, tok, prev))
+        else:
+            msg = ("token level: the documented grammar derives `%s` but the parser reports a syntax error at %s after %s "
+                   "(innermost node %s)" % (sent, tok, prev, kind))
+        ck.ob("R04.5", "%s:%s:%s . %s" % (direction, kind, prev, tok), False, msg=msg,
+              extra={"sentence": sent, "prefix": x["prefix"], "token": x["token"], "doc_rules": x["doc_rules"]})
+    ck.ob("R04.5", "explored", True, "%d product states, %d token steps, %d distinct divergence points"
+          % (ex.nodes, ex.steps, len(first)))
